@@ -1692,7 +1692,15 @@ class EnumNode(AstNode):
             # evaluate value
             if member.value is not None:
                 try:
-                    cvalue = int(todict.print_node(member.value))
+                    text = todict.print_node(member.value)
+                    cvalue = int(text)
+                    if text[0] == "-" or text[0] == "+":
+                        digits = text[1:]
+                    else:
+                        digits = text
+                    if len(digits) > 1 and digits[0] == "0":
+                        # A leading zero is an octal literal in C/C++.
+                        cvalue = int(text, 8)
                     fvalue = cvalue
                     value_is_int = True
                 except ValueError:
